@@ -88,9 +88,15 @@ def _neg_const(node):
 
 
 class _Fn:
-    def __init__(self, f, params):
+    """one function under the rule: taint of the batch values, backward slice of the result, name resolution"""
+
+    def __init__(self, ix, f, params, bindings=None, kw_forward=(), root_axis_params=None):
+        self.ix = ix
         self.f = f
         self.taint = set(params)
+        self.bindings = dict(bindings or {})       # parameter -> AST node of the argument at the (inlined) call site
+        self.kw_forward = list(kw_forward)          # explicit keywords that reach this function through **kwargs
+        self.root_axis_params = root_axis_params if root_axis_params is not None else {}
         self.assigns = []       # (targets names, value node, stmt)
         self.returns = []
         for n in ast.walk(f.node):
@@ -102,6 +108,10 @@ class _Fn:
                 self.assigns.append((self._names([n.target]), n.value, n))
             elif isinstance(n, ast.Return) and n.value is not None:
                 self.returns.append(n)
+        self.single = {}
+        for names, val, st in self.assigns:
+            if isinstance(st, ast.Assign) and len(st.targets) == 1 and isinstance(st.targets[0], ast.Name):
+                self.single.setdefault(st.targets[0].id, []).append(val)
         changed = True
         while changed:
             changed = False
@@ -109,7 +119,6 @@ class _Fn:
                 if self.tainted(val) and not names <= self.taint:
                     self.taint |= names
                     changed = True
-        # backward slice of the return value (names)
         self.live = set()
         for r in self.returns:
             self.live |= self._loads(r.value)
@@ -154,6 +163,97 @@ class _Fn:
             if names & self.live:
                 yield val, st
 
+    def resolve(self, node, depth=0):
+        """follow a plain name to the constant / callable it is bound to: a local or module-level literal, or the
+        argument of the inlined call; returns (node, 'axis-param' | None)"""
+        if depth > 6 or not isinstance(node, ast.Name):
+            return node, None
+        if node.id in self.bindings:
+            b = self.bindings[node.id]
+            if isinstance(b, tuple):         # (node, resolver of the caller)
+                return b[1].resolve(b[0], depth + 1)
+            return b, None
+        if node.id in self.root_axis_params and node.id in (self.f.params + self.f.kwonly):
+            return node, "axis-param"
+        if node.id in self.single and len(self.single[node.id]) == 1 and node.id not in self.taint:
+            return self.resolve(self.single[node.id][0], depth + 1)
+        ns = self.ix.namespace(self.f.module.name)
+        b = ns.get(node.id)
+        if b is not None and b.kind == "value" and isinstance(b.target, ast.AST):
+            return b.target, None
+        return node, None
+
+
+def scan(rep, ix, fn, root, depth=0):
+    """check every axis-bearing construct on the result slice of fn (following repository helpers); returns the count"""
+    f = fn.f
+    count = 0
+    seen = set()
+    for rootnode, st in fn.slice_nodes():
+        for n in ast.walk(rootnode):
+            if id(n) in seen:
+                continue
+            seen.add(id(n))
+            # a repository helper applied to a batch value: the helper is part of the function
+            if isinstance(n, ast.Call) and depth < 4:
+                callee, fnode = None, n.func
+                if isinstance(fnode, ast.Name) and fnode.id in fn.bindings:
+                    fnode, _ = fn.resolve(fnode)
+                b = ix.resolve_expr(f.module, fnode, ix.local_names(f)) if isinstance(fnode, (ast.Name, ast.Attribute)) else None
+                if b is not None and b.kind == "func":
+                    callee = b.target
+                if callee is not None and any(fn.tainted(a) for a in list(n.args) + [k.value for k in n.keywords]):
+                    params = [p for p in callee.params if not (p == "self" and callee.cls is not None)]
+                    t_params, bind, fwd = [], {}, []
+                    for i_, a in enumerate(n.args):
+                        if i_ < len(params):
+                            if fn.tainted(a):
+                                t_params.append(params[i_])
+                            else:
+                                bind[params[i_]] = (a, fn)
+                    for k in n.keywords:
+                        if k.arg is None:
+                            fwd.extend(fn.kw_forward)
+                        elif k.arg in params or k.arg in callee.kwonly:
+                            if fn.tainted(k.value):
+                                t_params.append(k.arg)
+                            else:
+                                bind[k.arg] = (k.value, fn)
+                        else:
+                            fwd.append(ast.keyword(arg=k.arg, value=_Resolved(k.value, fn)))
+                    sub = _Fn(ix, callee, t_params, bind, fwd, fn.root_axis_params)
+                    sub.root_fn = getattr(fn, "root_fn", fn)
+                    count += scan(rep, ix, sub, root, depth + 1)
+                    continue
+            r = _construct(fn, n)
+            if r is None:
+                continue
+            count += 1
+            kind, msg = r
+            key = "%s: %s" % (root.fq if f is root else "%s via %s" % (root.fq, f.fq), norm_text(n)[:90])
+            if kind == "ok":
+                continue
+            fn.bad = getattr(fn, "bad", 0) + 1
+            scan.bad[0] += 1
+            if kind == "bad":
+                rep.violation("P3.trailing-axes", key, msg + ": a stack would not give, per item, what the single-item call gives",
+                              f.where(n), {"function": root.fq, "statement": norm_text(st)[:160]})
+            else:
+                rep.unknown("P3.trailing-axes", key, msg, f.where(n))
+    return count
+
+
+scan.bad = [0]
+
+
+class _Resolved(ast.AST):
+    """an argument expression together with the function context it has to be resolved in"""
+    _fields = ()
+
+    def __init__(self, node, fn):
+        self.node = node
+        self.fn = fn
+
 
 def check(rep, ix):
     n_constructs = 0
@@ -167,38 +267,18 @@ def check(rep, ix):
         if missing:
             raise AnalysisError("C20.P3: %s has no parameter %s" % (f.fq, missing))
         armed.add(f.fq)
-        fn = _Fn(f, params)
         axis_params = {}
         for p in f.params + f.kwonly:
             if p in ("axis", "axes"):
                 axis_params[p] = f.defaults.get(p)
-        bad = 0
-        count = 0
-        seen = set()
-        for root, st in fn.slice_nodes():
-            for n in ast.walk(root):
-                if id(n) in seen:
-                    continue
-                seen.add(id(n))
-                r = _construct(fn, n, axis_params)
-                if r is None:
-                    continue
-                count += 1
-                kind, msg = r
-                key = "%s: %s" % (f.fq, norm_text(n)[:90])
-                if kind == "ok":
-                    continue
-                bad += 1
-                if kind == "bad":
-                    rep.violation("P3.trailing-axes", key, msg + ": a stack would not give, per item, what the single-item call gives",
-                                  f.where(n), {"function": f.fq, "batch_params": params, "statement": norm_text(st)[:160]})
-                else:
-                    rep.unknown("P3.trailing-axes", key, msg, f.where(n))
+        fn = _Fn(ix, f, params, root_axis_params=axis_params)
+        scan.bad[0] = 0
+        count = scan(rep, ix, fn, f)
         n_constructs += count
         if count == 0:
             rep.unknown("P3.trailing-axes", f.fq, "no axis-bearing construct found on the result slice of a batch function", f.where())
-        elif not bad:
-            rep.ok("P3.trailing-axes", f.fq, "%d axis-bearing constructs on the result slice, all address trailing axes only" % count)
+        elif not scan.bad[0]:
+            rep.ok("P3.trailing-axes", f.fq, "%d axis-bearing constructs on the result slice (helpers included), all address trailing axes only" % count)
     # candidates not in the table (information only)
     cands = []
     for f in ix.public_functions():
@@ -214,21 +294,26 @@ def check(rep, ix):
     return n_constructs
 
 
-def _axis_verdict(node, axis_params):
+def _axis_verdict(fn, node):
+    if isinstance(node, _Resolved):
+        return _axis_verdict(node.fn, node.node)
+    node, tag = fn.resolve(node)
+    if isinstance(node, _Resolved):
+        return _axis_verdict(node.fn, node.node)
+    if tag == "axis-param":
+        d = fn.root_axis_params.get(node.id)
+        if d is not None and _neg_const(d) is True:
+            return "ok", ""
+        return "bad", "the default of parameter `%s` is not a trailing (negative) axis" % node.id
     r = _neg_const(node)
     if r is True:
         return "ok", ""
     if r is False:
         return "bad", "axis %s counts from the front" % norm_text(node)
-    if isinstance(node, ast.Name) and node.id in axis_params:
-        d = axis_params[node.id]
-        if d is not None and _neg_const(d) is True:
-            return "ok", ""
-        return "bad", "the default of parameter `%s` is not a trailing (negative) axis" % node.id
     return "unknown", "axis expression %s is not a constant" % norm_text(node)
 
 
-def _construct(fn, n, axis_params):
+def _construct(fn, n):
     """classify one AST node; None if it is not an axis-bearing construct on a batch value"""
     # (a) shape reads
     if isinstance(n, ast.Subscript) and isinstance(n.value, ast.Attribute) and n.value.attr == "shape" and fn.tainted(n.value.value):
@@ -238,7 +323,8 @@ def _construct(fn, n, axis_params):
             if lo is not None and _neg_const(lo) is True and s.upper is None:
                 return "ok", ""
             return "bad", "shape slice %s includes leading axes" % norm_text(n)
-        r = _neg_const(s)
+        s2, _ = fn.resolve(s)
+        r = _neg_const(s2)
         if r is True:
             return "ok", ""
         if r is False:
@@ -248,28 +334,42 @@ def _construct(fn, n, axis_params):
         return "bad", "%s counts the elements of the whole stack" % norm_text(n)
     if isinstance(n, ast.Call) and isinstance(n.func, ast.Name) and n.func.id == "len" and n.args and fn.tainted(n.args[0]):
         return "bad", "%s is the length of the first (batch) axis of a stack" % norm_text(n)
-    # (b)/(c) axis-taking routines
-    if isinstance(n, ast.Call) and isinstance(n.func, ast.Attribute) and n.func.attr in AXIS_FUNCS:
-        pos, dflt = AXIS_FUNCS[n.func.attr]
-        recv = n.func.value
-        is_method = fn.tainted(recv) and not _is_module_chain(recv)
-        if is_method:
-            arr_args = n.args
-        else:
-            if not n.args or not fn.tainted(n.args[0]):
-                return None
-            arr_args = n.args[1:]
-        ax = None
-        for k in n.keywords:
-            if k.arg in ("axis", "axes"):
-                ax = k.value
-        if ax is None and pos is not None and len(arr_args) > pos:
-            ax = arr_args[pos]
-        if ax is None or (isinstance(ax, ast.Constant) and ax.value is None):
-            if dflt == "last":
-                return "ok", ""
-            return "bad", "%s(...) without an axis acts on %s axes" % (n.func.attr, "the leading" if dflt == "front" else "all")
-        return _axis_verdict(ax, axis_params)
+    # (b)/(c) axis-taking routines (the callee may be a function-valued parameter bound at the inlined call site)
+    if isinstance(n, ast.Call):
+        func = n.func
+        if isinstance(func, ast.Name) and func.id in fn.bindings:
+            func, _ = fn.resolve(func)
+        if isinstance(func, ast.Attribute) and func.attr in AXIS_FUNCS:
+            pos, dflt = AXIS_FUNCS[func.attr]
+            recv = func.value
+            is_method = fn.tainted(recv) and not _is_module_chain(recv)
+            if is_method:
+                arr_args = n.args
+            else:
+                if not n.args or not fn.tainted(n.args[0]):
+                    return None
+                arr_args = n.args[1:]
+            ax = None
+            kws = []
+            for k in n.keywords:
+                if k.arg is None:
+                    kws.extend(fn.kw_forward)
+                else:
+                    kws.append(k)
+            for k in kws:
+                if k.arg in ("axis", "axes"):
+                    ax = k.value
+            if ax is None and pos is not None and len(arr_args) > pos:
+                ax = arr_args[pos]
+            if isinstance(ax, ast.AST) and not isinstance(ax, _Resolved):
+                ax_r, _t = fn.resolve(ax)
+            else:
+                ax_r = ax
+            if ax is None or (isinstance(ax_r, ast.Constant) and ax_r.value is None):
+                if dflt == "last":
+                    return "ok", ""
+                return "bad", "%s(...) without an axis acts on %s axes" % (func.attr, "the leading" if dflt == "front" else "all")
+            return _axis_verdict(fn, ax)
     # (d) subscripts of batch values
     if isinstance(n, ast.Subscript) and fn.tainted(n.value) and not (isinstance(n.value, ast.Attribute) and n.value.attr in META_ATTRS):
         s = n.slice
